@@ -98,4 +98,4 @@ def k10(site, case, info):
     """XarrayStream with z/lat/lon on another dimension of the same size: a two-sided window makes .sel(time=...) on those
     variables raise KeyError."""
     return (site == "XarrayStream.run(axes on another dimension)" and info.get("raised") and info.get("exc") == "KeyError"
-            and info.get("two_sided_window") and info.get("has_axes") and info.get("has_time"))
+            and info.get("any_window") and info.get("has_axes") and info.get("has_time"))
